@@ -291,14 +291,14 @@ void h_search_walk(void) {
     setBookFile(true); fileMode = 2; walkUp = nondet_bool();
     fileLen = (long long)nondet_u64(); wantedKey = nondet_u64();
     ASSUME(wantedKey != 0);
-    gLg = 27;
-    ASSUME(fileLen >= (1LL << 31) - 1024 && fileLen <= (1LL << 31) + 15 + (long long)verif_param());   // param > 0 only for locating the overflow boundary by hand
+    if (verif_param() == 0) { gLg = 27; ASSUME(fileLen >= (1LL << 31) - 1024 && fileLen <= (1LL << 31) + 15); }   // up to 2^27 entries
+    else { gLg = 30; ASSUME(fileLen >= (1LL << 31) + 16 && fileLen <= (1LL << 34) + 15); }                          // 2 GiB .. 16 GiB books: up to 2^30 entries
     startSearch();
     std::vector<Book::BookEntry> out; outVec = &out;
     rawBook().getBookEntries(pos, out);                                    // real
     verif_observe(nReads); verif_observe(out.size());
     CHECK(offOk, "every entry read lies inside [0, numEntries)");
-    CHECK(gHi - gLo <= 1 && gIt <= 28, "search ends after at most 28 probes");
+    CHECK(gHi - gLo <= 1 && gIt <= gLg + 1, "search ends after at most lg(numEntries)+1 probes");
     if (gN > 0) CHECK(walkUp ? gHi == gN : gHi == 0, "walk ends at the top / bottom of the file");
     checkLogged(pos, out);
     END();
